@@ -19,7 +19,7 @@ func init() {
 
 var constWanted = map[string][]string{
 	"github.com/mit-pdos/go-nfsd/inode":       {"NBLKINO", "NDIRECT", "INDIRECT", "DINDIRECT", "NBLKBLK", "NINDLEVEL", "NF3FREE"},
-	"github.com/mit-pdos/go-nfsd/dir":         {"DIRENTSZ", "MAXNAMELEN"},
+	"github.com/mit-pdos/go-nfsd/dir":         {"DIRENTSZ", "MAXNAMELEN", "fattr3XDRsize", "entryplus3Baggage"},
 	"github.com/mit-pdos/go-nfsd/fstxn":       {"ICACHESZ"},
 	"github.com/mit-pdos/go-journal/common":   {"INODESZ", "NBITBLOCK", "INODEBLK", "LOGSIZE", "NINODEBITMAP", "ROOTINUM", "NULLINUM", "NULLBNUM"},
 	"github.com/mit-pdos/go-journal/jrnl":     {"LogBlocks"},
